@@ -66,9 +66,11 @@ def _subdivide(v, f):
 BASES = [_tetra, _octa, _cube, _icosa]
 
 
-def gen_cell(r, tier, cls, cid):
+def gen_cell(r, tier, cls, cid, budget=None):
     v, f = r.choice(BASES)()
     for _ in range(r.choice([0, 0, 0, 1, 1, 2] if tier == "quick" else [0, 0, 1, 1, 2, 2, 3])):
+        if budget is not None and 4 * len(v) > budget:
+            break                                      # keeps the total size of a population bounded
         v, f = _subdivide(v, f)
     # geometry: scale, sign, offset of any magnitude
     mode = r.randint(0, 9)
@@ -144,7 +146,13 @@ def gen_pop(r, tier, idx):
         for c in range(5):
             classes[r.randint(0, nc - 1)] = c
     ids = [r.randint(0, 10 ** r.randint(1, 9)) for _ in range(nc)] if r.randint(0, 1) else list(range(nc))
-    return [gen_cell(r, tier, classes[i], ids[i]) for i in range(nc)]
+    pop = []
+    budget = 2500 if tier == "quick" else 5000          # node slots per population (the model driver is quadratic in it)
+    for i in range(nc):
+        c = gen_cell(r, tier, classes[i], ids[i], budget=max(0, budget))
+        budget -= len(c["nodes"])
+        pop.append(c)
+    return pop
 
 
 def pop_line(pop):
@@ -317,7 +325,7 @@ def run(ctx):
         if not ok:
             V.fail_tie("proof", "leanchecker rejected SimuVerif.Properties.C16", log=log)
     exe, rebuilt = vlib.build_repo.build_harness(HARNESS, "h_vtk")
-    n = 160 if tier == "quick" else 1500
+    n = 160 if tier == "quick" else 900
     if not proof["ok"]:
         n = max(n, 600)
     r = Rng(seed)
@@ -403,6 +411,7 @@ def run(ctx):
                 if stats["tie_mismatch"] <= 3:
                     V.fail_tie("correspondence", bad, case=inp)
     # the writer refuses non-finite coordinates (model: WErr.nonFinite)
+    exe, _ = vlib.build_repo.build_harness(HARNESS, "h_vtk")
     bad_pop = [gen_cell(Rng(3), "quick", 1, 0)]
     bad_pop[0]["nodes"][0] = (True, [float("nan"), 0.0, 0.0])
     o, rcb, eb = vlib.run_lines(exe, [pop_line(bad_pop)])
@@ -442,6 +451,7 @@ def run(ctx):
                 e += [str(len(t))] + [str(i) for i in t]
         mlines2.append(" ".join(w))
         mexp.append(" ".join(e))
+    exe, _ = vlib.build_repo.build_harness(HARNESS, "h_vtk")      # the shared cache may have been pruned meanwhile
     mo, _, _ = vlib.run_lines(exe, mlines2)
     drv17 = vlib.driver_path("drv_c17")
     for i, a in enumerate(mo):
@@ -467,6 +477,7 @@ def run(ctx):
     # observation (not part of the property: a vector<mesh> is not a population of cells): an empty mesh in the
     # list makes the overload drop the cells behind it and declare counts that do not match
     tet = "12 " + " ".join(fhex(x) for x in [0, 0, 0, 1, 0, 0, 0, 1, 0, 0, 0, 1]) + " 4 3 0 2 1 3 0 1 3 3 1 2 3 3 2 0 3"
+    exe, _ = vlib.build_repo.build_harness(HARNESS, "h_vtk")
     oo, _, _ = vlib.run_lines(exe, ["meshes 3 %s 0 0 %s" % (tet, tet)])
     empty_mesh_obs = None
     if oo and oo[0].startswith("ok file "):
@@ -486,7 +497,7 @@ def run(ctx):
         "theorems": {k: v for k, v in proof["axioms"].items()},
         "proof_failures": proof["failures"], "translator": gen,
         "evaluations": len(impl), "distinct_nontrivial": len(set(lines)),
-        "rule": "seeded populations: 1-40 cells (tetra/octa/cube/icosa, 0-3 midpoint subdivisions), all five cell classes forced when >= 5 cells, node relabelling, face shuffling, coordinates scale 1e-9..1e6 (10% each 1e-300..1e-9, 1e6..1e300), signs, offsets, +-0, decimal ties of the 5-digit rounding, free node/face slots (NaN/Inf content, shuffled free queues) in half of the cells; + 3 corpus populations; distinct = distinct request lines",
+        "rule": "seeded populations: 1-40 cells (tetra/octa/cube/icosa, 0-3 midpoint subdivisions, at most 2500 (quick) / 5000 (thorough) node slots per population), all five cell classes forced when >= 5 cells, node relabelling, face shuffling, coordinates scale 1e-9..1e6 (10% each 1e-300..1e-9, 1e6..1e300), signs, offsets, +-0, decimal ties of the 5-digit rounding, free node/face slots (NaN/Inf content, shuffled free queues) in half of the cells; + 3 corpus populations; distinct = distinct request lines",
         "cells_per_population": {str(k): v for k, v in sorted(stats["cells"].items())},
         "populations_with_free_slots": stats["with_free_slots"], "class_counts": stats["classes"], "max_face_slots": stats["faces_max"],
         "coordinates_written": stats["coords"], "file_bytes": stats["bytes"],
